@@ -433,8 +433,32 @@ class TermBuilder:
                 subs.append(p)
                 o |= self.origins(p)
             elt = e.value if isinstance(e, ast.DictComp) else e.elt
-            # element expression with comprehension variables opaque
-            return self.mk(f"comp[{short(elt, 80)}]({','.join(s.key() for s in subs)})", "comp", o, e, subs)
+            # element expression evaluated with the comprehension variables bound to elements of their sources
+            env = dict(getattr(self, "_env", {}))
+            for g in e.generators:
+                names = [x.id for x in ast.walk(g.target) if isinstance(x, ast.Name)]
+                fake = ast.For(target=g.target, iter=g.iter, body=[], orelse=[])
+                for nm in names:
+                    b = for_binding(fake, nm)
+                    saved = getattr(self, "_env", {})
+                    self._env = env
+                    try:
+                        if b is not None:
+                            sp = self._term(b[0], at, _seen)
+                            env[nm] = self.mk(f"elem({sp.key()})", "idx", self.origins(sp), g.iter, [sp], name="elem")
+                        else:
+                            sp = self._term(g.iter, at, _seen)
+                            env[nm] = self.mk(f"iter:{nm}({sp.key()})", "iter", self.origins(sp), g.iter, [sp], name=nm)
+                    finally:
+                        self._env = saved
+            saved = getattr(self, "_env", {})
+            self._env = env
+            try:
+                et = self._term(elt, at, _seen)
+            finally:
+                self._env = saved
+            o |= self.origins(et)
+            return self.mk(f"comp[{et.key()}]({','.join(s.key() for s in subs)})", "comp", o, e, [et] + subs, name=short(elt, 60))
         if isinstance(e, ast.NamedExpr):
             return self._term(e.value, at, _seen)
         if isinstance(e, ast.Starred):
@@ -463,6 +487,9 @@ class TermBuilder:
             return Poly.const(1 if name == "True" else 0)
         if self.selfname and name == self.selfname:
             return self.mk("self", "self", [], e)
+        env = getattr(self, "_env", None)
+        if env and name in env:
+            return env[name]
         defs = self.cfg.defs_reaching(at, name)
         if not defs:
             return self.mk(f"global:{name}", "global", [f"global:{name}"], e, name=name)
@@ -731,7 +758,7 @@ class TermBuilder:
             subs = [recv] + subs
             kind_name = la
         elif isinstance(f, ast.Name):
-            callee = self._name(f, at, _seen) if self.cfg.defs_reaching(at, f.id) else None
+            callee = self._name(f, at, _seen) if (self.cfg.defs_reaching(at, f.id) or f.id in (getattr(self, "_env", None) or {})) else None
             if callee is not None:
                 fkey = callee.key()
                 origins |= self.origins(callee)
